@@ -12,6 +12,9 @@ if ids:
 resfile = os.path.join(VERIF, 'seeded', 'RESULTS.json')
 results = json.load(open(resfile)) if os.path.exists(resfile) else {}
 assert subprocess.run(['git', '-C', REPO, 'status', '--porcelain'], capture_output=True, text=True).stdout.strip() == '', '/repo not clean'
+import shutil, tempfile
+backup = tempfile.mkdtemp(prefix='evidence_backup_', dir=os.path.join(VERIF, 'work'))
+shutil.copytree(os.path.join(VERIF, 'evidence'), os.path.join(backup, 'evidence'))
 for s in seeds:
     d = os.path.join(VERIF, 'seeded', s)
     meta = json.load(open(os.path.join(d, 'meta.json')))
@@ -28,4 +31,8 @@ for s in seeds:
     finally:
         subprocess.run(['git', '-C', REPO, 'checkout', '--', '.'], check=True)
 json.dump(results, open(resfile, 'w'), indent=1, sort_keys=True)
+# evidence files must describe runs on the unchanged tree: restore them
+shutil.rmtree(os.path.join(VERIF, 'evidence'))
+shutil.copytree(os.path.join(backup, 'evidence'), os.path.join(VERIF, 'evidence'))
+shutil.rmtree(backup)
 # leave evidence files as produced on the unchanged tree
